@@ -850,6 +850,14 @@ static int parse_data(vnacal_load_state_t *vlsp, const vnacal_layout_t *vlp,
 		*item);
 	double frequency = -1.0;
 
+	if (child->type != YAML_MAPPING_NODE) {
+	    _vnacal_error(vcp, VNAERR_SYNTAX,
+		    "%s (line %ld) error: expected mapping for each entry "
+		    "of \"data\"",
+		    vcp->vc_filename, child->start_mark.line + 1);
+	    return -1;
+	}
+
 	/*
 	 * No matrices seen yet in this entry.
 	 */
